@@ -590,6 +590,10 @@ def run(chk, repo):
                               "wl + wr = 1 and int(k)*wl + (int(k)+1)*wr = k (exact linear interpolation); integer "
                               "delays are kept")
     lin = repo.find(LF, "LinearFilter.linearize")
+    for cand in repo.callees(LF, lin):
+        if [n for n in ast.walk(cand) if isinstance(n, ast.Assign) and unparse(n.targets[0]) == "pairs"]:
+            lin = cand          # the interpolation may live in a private helper of linearize
+            break
     pair_asg = [n for n in ast.walk(lin) if isinstance(n, ast.Assign) and unparse(n.targets[0]) == "pairs"]
     chk.require(len(pair_asg) == 2, "LinearFilter.linearize: the two 'pairs' assignments not found")
     frac = [n for n in pair_asg if isinstance(n.value, ast.List) and len(n.value.elts) == 2]
@@ -663,6 +667,69 @@ def _properties(repo, mname, cname):
     return out
 
 
+_BINOPS = {ast.Mult: "mul", ast.Add: "add"}
+
+
+def _fold_loop(mod, fn, acc):
+    """Recognise the spelled-out left fold over a lazy source and hand it back as the reduce(..) call it stands for.
+    Accepted: acc = next(SRC) [SRC an iterator local]; for x in SRC: acc = acc OP x | acc OP= x | acc = f(acc, x);
+    an optional guard raising TypeError for an empty list (what reduce does); aliases of plain locals are resolved."""
+    body = docstring_free(fn.body)
+    env = {}
+    first = loop = None
+    for st in body:
+        if isinstance(st, ast.Assign) and len(st.targets) == 1 and isinstance(st.targets[0], ast.Name):
+            nm = st.targets[0].id
+            if nm == acc:
+                first = st
+            else:
+                env[nm] = st.value
+        elif isinstance(st, ast.For) and isinstance(st.target, ast.Name):
+            loop = st
+        elif isinstance(st, ast.If) and all(isinstance(x, ast.Raise) for x in st.body) and not st.orelse:
+            continue
+        elif isinstance(st, ast.Return):
+            continue
+        else:
+            return None
+    if first is None or loop is None:
+        return None
+
+    def res(e, depth=0):
+        class R(ast.NodeTransformer):
+            def visit_Name(self, n):
+                if isinstance(n.ctx, ast.Load) and n.id in env and depth < 4:
+                    return res(env[n.id], depth + 1)
+                return n
+        return R().visit(ast.parse(unparse(e), mode="eval").body)
+    # acc = next(it)
+    fv = first.value
+    if not (isinstance(fv, ast.Call) and unparse(fv.func) == "next" and len(fv.args) == 1 and isinstance(fv.args[0], ast.Name)):
+        return None
+    itname = fv.args[0].id
+    if unparse(loop.iter) != itname or len(loop.body) != 1:
+        return None
+    x = loop.target.id
+    b = loop.body[0]
+    opname = None
+    if isinstance(b, ast.Assign) and unparse(b.targets[0]) == acc and isinstance(b.value, ast.BinOp) \
+            and type(b.value.op) in _BINOPS and unparse(b.value.left) == acc and unparse(b.value.right) == x:
+        opname = "operator." + _BINOPS[type(b.value.op)]
+    elif isinstance(b, ast.AugAssign) and unparse(b.target) == acc and type(b.op) in _BINOPS and unparse(b.value) == x:
+        return None        # in-place operators may differ from the binary ones: not the same fold
+    elif isinstance(b, ast.Assign) and unparse(b.targets[0]) == acc and isinstance(b.value, ast.Call) \
+            and [unparse(a_) for a_ in b.value.args] == [acc, x]:
+        opname = unparse(b.value.func)
+    if opname is None:
+        return None
+    src = res(env[itname]) if itname in env else None
+    if src is None:
+        return None
+    if isinstance(src, ast.Call) and unparse(src.func) == "iter" and len(src.args) == 1:
+        src = src.args[0]
+    return ast.parse("reduce(%s, %s)" % (opname, unparse(src)), mode="eval").body
+
+
 def _reduce_shape(mod, fn):
     """Recognise ``reduce(OP, (filt.ATTR[(args)] for filt in OVER))[.OUTER]`` or
     ``reduce(OP, OVER).OUTER`` as the (last) returned expression."""
@@ -671,6 +738,11 @@ def _reduce_shape(mod, fn):
     outer = None
     if isinstance(v, ast.Attribute):
         outer, v = v.attr, v.value
+    if isinstance(v, ast.Name):
+        # explicit fold:  it = <source> ; acc = next(it) ; for x in it: acc = acc OP x ; return acc
+        loop_form = _fold_loop(mod, fn, v.id)
+        if loop_form is not None:
+            v = loop_form
     if not (isinstance(v, ast.Call) and canon_call(mod, v) == "functools.reduce" and len(v.args) == 2):
         return None
     op = canon(mod, v.args[0])
